@@ -282,10 +282,11 @@ func (e *Engine) applyContract(st *State, fr *Frame, fn *ssa.Function, c *Contra
 	// type invariants of arguments are obligations
 	for i, a := range args {
 		for _, inv := range e.invariantsOfValue(st, a, fn.Params[i].Type(), fn.Params[i].Name()) {
-			if c.Weak[fn.Params[i].Name()] && inv.top {
+			if c.Weak[fn.Params[i].Name()] && (inv.top || inv.composite) {
 				continue
 			}
 			e.addObligation(st, fr, "callinv", rel+":"+inv.label, inv.t, "type invariant of argument "+inv.label)
+			st.assume(inv.t) // proved (or reported) above: available from here on
 		}
 	}
 	for _, grp := range c.NoAlias {
@@ -618,7 +619,14 @@ func (e *Engine) symbolicResult(st *State, t types.Type, name string, fresh bool
 		// aggregate value result: fresh symbolic leaves
 		r := e.newRegion(name, t, true)
 		e.symbolicRegion(st, r, name)
-		return e.loadPath(st, r, nil, t)
+		av := e.loadPath(st, r, nil, t)
+		if a, ok := av.(*AggVal); ok {
+			if e.aggRegions == nil {
+				e.aggRegions = map[*AggVal]*Region{}
+			}
+			e.aggRegions[a] = r
+		}
+		return av
 	}
 	e.fail("unsupported result type %s", t)
 	return nil
@@ -761,6 +769,14 @@ func (e *Engine) assumeEnsures(st *State, env *SpecEnv, x ast.Expr, results []Va
 				if knownFalse(st, g) {
 					return
 				}
+			case "fact":
+				// a plain hypothesis: never oriented into a rewrite rule
+				t := st.sub(env.boolTerm(n.Args[0]))
+				if !st.hypKeys[t.Key()] {
+					st.hypKeys[t.Key()] = true
+					st.hyps = append(st.hyps, t)
+				}
+				return
 			case "iff":
 				l := env.boolTerm(n.Args[0])
 				if l.Op == "var" && definable(l) {
@@ -865,6 +881,7 @@ type invInst struct {
 	label string
 	t     *Term
 	top   bool // invariant of the root object itself (not of a nested object)
+	composite bool // the object has nested objects that carry invariants of their own (Point, key objects)
 }
 
 func (e *Engine) typeSpecOf(t types.Type) *TypeSpec {
@@ -885,8 +902,9 @@ func (e *Engine) invariantsAt(st *State, reg *Region, path []int, t types.Type, 
 	rec = func(path []int, t types.Type, label string) {
 		if ts := e.typeSpecOf(t); ts != nil {
 			env := &SpecEnv{e: e, st: st, vars: map[string]Value{"self": &RefVal{reg: reg, path: path, typ: t}}, fnName: "inv " + ts.Name}
+			comp := e.hasNestedSpecs(t)
 			for _, c := range ts.Inv {
-				out = append(out, invInst{label, env.boolTerm(c.Expr), len(path) == len(root)})
+				out = append(out, invInst{label, env.boolTerm(c.Expr), len(path) == len(root), comp})
 			}
 		}
 		switch u := underlying(t).(type) {
@@ -923,6 +941,18 @@ func (e *Engine) invariantsAt(st *State, reg *Region, path []int, t types.Type, 
 
 func (e *Engine) invariantsOfValue(st *State, v Value, t types.Type, label string) []invInst {
 	switch p := v.(type) {
+	case *AggVal:
+		// aggregate result of a contracted call: invariants of the objects it contains
+		if r, ok := e.aggRegions[p]; ok {
+			var out []invInst
+			for _, inv := range e.invariantsAt(st, r, nil, r.typ, label) {
+				if !inv.composite {
+					out = append(out, inv)
+				}
+			}
+			return out
+		}
+		return nil
 	case *PtrVal:
 		if p.null || p.reg.dyn || p.sym != nil {
 			return nil
@@ -1079,6 +1109,10 @@ func freeIdents(x ast.Expr) []string {
 
 // checkCuts emits cut-point lemmas whose referenced locals are all defined.
 func (e *Engine) checkCuts(st *State, fr *Frame) {
+	e.checkCutsAt(st, fr, false)
+}
+
+func (e *Engine) checkCutsAt(st *State, fr *Frame, atReturn bool) {
 	if fr.contract == nil || len(fr.contract.Asserts) == 0 {
 		return
 	}
@@ -1087,7 +1121,9 @@ func (e *Engine) checkCuts(st *State, fr *Frame) {
 			continue
 		}
 		ready := true
-		if a.After != "" && st.binds[a.After] < a.AfterN {
+		if a.After == "return" {
+			ready = atReturn
+		} else if a.After != "" && st.binds[a.After] < a.AfterN {
 			ready = false
 		}
 		for _, id := range freeIdents(a.Expr) {
@@ -1113,7 +1149,7 @@ func (e *Engine) checkCuts(st *State, fr *Frame) {
 		st.cuts[a.Name] = true
 		env := e.specEnv(st, fr.old, fr.fn, fr.contract, nil)
 		env.vars = fr.params
-		g := env.boolTerm(a.Expr)
+		g := strengthenPtGoal(st.sub(env.boolTerm(a.Expr)), true) // what is proved is what is assumed afterwards
 		if a.Kind == "assert" {
 			// intermediate lemma: proved here, then available (nothing is forgotten)
 			e.addObligation(st, fr, "assert", a.Name, g, a.Text)
@@ -1123,12 +1159,22 @@ func (e *Engine) checkCuts(st *State, fr *Frame) {
 		e.addObligation(st, fr, "cut", a.Name, g, a.Text)
 		// forget everything but entry assumptions and cut lemmas
 		keep := st.hyps[:st.entryH:st.entryH]
-		st.hyps = append(keep, g)
-		st.entryH = len(st.hyps)
+		st.hyps = append([]*Term{}, keep...)
 		st.hypKeys = map[string]bool{}
 		for _, h := range st.hyps {
 			st.hypKeys[h.Key()] = true
 		}
+		// rewrite rules learnt since entry are forgotten as well; the lemma re-introduces what is needed
+		st.subst = make(map[string]*Term, len(st.entrySubst))
+		for k, v := range st.entrySubst {
+			st.subst[k] = v
+		}
+		st.subMemo = nil
+		// the lemma is re-evaluated over the raw current state (no rewrite rules) and assumed conjunct by
+		// conjunct at the expression level, so that definitions are oriented afresh.  (It is equivalent to the
+		// proved form, which was the same statement with equals substituted for equals.)
+		e.assumeEnsures(st, env, a.Expr, nil, nil)
+		st.entryH = len(st.hyps)
 	}
 }
 
@@ -1142,6 +1188,39 @@ func (e *Engine) touchesEmbeddedTable(fn *ssa.Function) bool {
 					}
 				}
 			}
+		}
+	}
+	return false
+}
+
+// hasNestedSpecs: a struct type some of whose fields (transitively, not through pointers) carry type specs.
+func (e *Engine) hasNestedSpecs(t types.Type) bool {
+	st, ok := underlying(t).(*types.Struct)
+	if !ok {
+		return false
+	}
+	var rec func(t types.Type) bool
+	rec = func(t types.Type) bool {
+		if e.typeSpecOf(t) != nil {
+			return true
+		}
+		switch u := underlying(t).(type) {
+		case *types.Struct:
+			for i := 0; i < u.NumFields(); i++ {
+				if rec(u.Field(i).Type()) {
+					return true
+				}
+			}
+		case *types.Array:
+			return rec(u.Elem())
+		case *types.Pointer:
+			return e.typeSpecOf(u.Elem()) != nil
+		}
+		return false
+	}
+	for i := 0; i < st.NumFields(); i++ {
+		if rec(st.Field(i).Type()) {
+			return true
 		}
 	}
 	return false
